@@ -105,8 +105,10 @@ def Site.name : Site → String
 
 /-- One construction step of a pipeline. -/
 inductive Item where
-  /-- `take; ⟨windows adapter calls, each may pull upstream⟩; put` on the pipeline's cell -/
-  | call (s : Site) (windows : Nat)
+  /-- `take; ⟨one adapter call per entry of `at`, each may pull upstream⟩; put` on the pipeline's
+  cell; `at` = the `Vid` the `ResolveInfo` / `ResolveEdgeInfo` of each call is positioned at (used
+  only to compare the plan with the real engine's call log) -/
+  | call (s : Site) («at» : List Vid)
   /-- `carrier.query.as_ref().expect("query was not returned")` -/
   | peek (s : Site)
   /-- `carrier.clone()` moved into a pull-time closure whose body builds and drains the pipeline
@@ -163,10 +165,10 @@ def construct : Nat → Pipeline → Bool → List Clo → St → Res Cfg
   | _ + 1, [], c, cs, st => .ok (c, cs, st)
   | f + 1, .peek s :: rest, c, cs, st =>
     if c then construct f rest c cs st else .fail (.takeOnNone s)
-  | f + 1, .call s k :: rest, c, cs, st =>
+  | f + 1, .call s vids :: rest, c, cs, st =>
     if c then
       -- take: the cell is empty while the adapter runs
-      match windows f k false cs st with
+      match windows f vids.length false cs st with
       | .ok (_, cs', st') => construct f rest true cs' st'      -- put: `carrier.query = Some(..)`
       | .fail o => .fail o
     else .fail (.takeOnNone s)
@@ -237,41 +239,42 @@ def filterItems (vs : List IRVertex) (currentVid : Vid) (f : IRFilter) : Pipelin
     match f.right with
     | some (.var _ _) => [.peek .filterVariable]         -- filtering.rs:281
     | some (.tag (.ctx vid _ _)) =>
-      if vid == currentVid then [.call .localField 1]    -- filtering.rs:298 → execution.rs:861/866
-      else if (vs.find? (·.vid == vid)).isSome then [.call .contextField 1]   -- execution.rs:794/817
+      if vid == currentVid then [.call .localField [currentVid]]    -- filtering.rs:298 → execution.rs:861/866
+      else if (vs.find? (·.vid == vid)).isSome then [.call .contextField [vid]]   -- execution.rs:794/817
       else []                                            -- imported tag: read from the context
     | some (.tag (.fcount _ _)) => []
     | none => []                                         -- `unreachable!`, no carrier access before it
 
 /-- `apply_local_field_filter` (719-739): `compute_local_field` then `apply_filter`. -/
 def localFilterItems (vs : List IRVertex) (vid : Vid) (f : IRFilter) : Pipeline :=
-  .call .localField 1 :: filterItems vs vid f
+  .call .localField [vid] :: filterItems vs vid f
 
 /-- `coerce_if_needed` + the local filters (106-117 and `perform_entry_into_new_vertex` 1047-1064). -/
 def entryItems (vs : List IRVertex) (vid : Vid) : Pipeline :=
   match vs.find? (·.vid == vid) with
   | none => []                                           -- `component.vertices[&vid]` panics first
   | some v =>
-    (if v.coercedFrom.isSome then [.call .coercion 1] else []) ++
+    (if v.coercedFrom.isSome then [.call .coercion [vid]] else []) ++
       v.filters.flatMap (localFilterItems vs vid)
 
 /-- the loop `for _ in 2..=max_depth` of `expand_recursive_edge` (1108-1144) -/
-def recLevelItems (coerce : Bool) : Nat → Pipeline
+def recLevelItems (fromVid : Vid) (coerce : Bool) : Nat → Pipeline
   | 0 => []
-  | k + 1 => (if coerce then [.call .recCoercion 1] else []) ++ .call .recNeighbors 1 ::
-      recLevelItems coerce k
+  | k + 1 => (if coerce then [.call .recCoercion [fromVid]] else []) ++ .call .recNeighbors [fromVid] ::
+      recLevelItems fromVid coerce k
 
 /-- `expand_edge` (962-1006). -/
 def edgeItems (vs : List IRVertex) (e : IREdge) : Pipeline :=
   (match e.recursive with
-    | none => [.call .edgeNeighbors 1]
-    | some r => .call .recNeighbors 1 :: recLevelItems r.coerceTo.isSome (r.depth - 1)) ++
+    | none => [.call .edgeNeighbors [e.fromVid]]
+    | some r => .call .recNeighbors [e.fromVid] ::
+        recLevelItems e.fromVid r.coerceTo.isSome (r.depth - 1)) ++
     entryItems vs e.toVid
 
 /-- the first loop of `compute_fold` (422-472) -/
 def importItems : List FieldRef → Pipeline
   | [] => []
-  | .ctx _ _ _ :: rest => .call .foldImport 1 :: importItems rest
+  | .ctx vid _ _ :: rest => .call .foldImport [vid] :: importItems rest
   | .fcount _ _ :: rest => importItems rest
 
 /-- The Eid-ordered merge of `compute_component` (126-177) on already planned stages. -/
@@ -296,18 +299,18 @@ def foldsItems (own : Bool) (vs : List IRVertex) : List Fold → List (Eid × Pi
   | .mk eid fromVid _ _ _ comp imports _ post :: rest =>
     (eid,
       importItems imports ++
-      [.call .foldNeighbors 1,
+      [.call .foldNeighbors [fromVid],
        .closure own (compItems own comp),                                    -- clone #1, line 495
        .peek .maxFoldLimit, .peek .minFoldLimit] ++
       post.flatMap (filterItems vs fromVid) ++
-      [.closure own (List.replicate comp.outputs.length (.call .foldOutput 1))])  -- clone #2, line 592
+      [.closure own (comp.outputs.map fun o => .call .foldOutput [o.vid])])        -- clone #2, line 592
       :: foldsItems own vs rest
 end
 
 /-- `interpret_ir` after line 50: `compute_component` on the root, then `construct_outputs`
 (one bracket, one `resolve_property` call per root output). -/
 def planOfWith (own : Bool) (ir : IRQuery) : Plan :=
-  ⟨compItems own ir.rootComponent ++ [.call .constructOutputs ir.rootComponent.outputs.length]⟩
+  ⟨compItems own ir.rootComponent ++ [.call .constructOutputs (ir.rootComponent.outputs.map (·.vid))]⟩
 
 /-- The plan of a query as the pinned code builds it: every fold closure owns a clone. -/
 def planOf (ir : IRQuery) : Plan := planOfWith true ir
@@ -331,16 +334,16 @@ def Plan.allOwn (p : Plan) : Bool := allOwnL p.items
 mutual
 /-- number of construction steps of a pipeline, nested bodies included (for the fuel bound) -/
 def Item.size : Item → Nat
-  | .call _ k => k + 2
+  | .call _ vids => vids.length + 2
   | .peek _ => 1
-  | .closure _ body => sizeL body + 2
+  | .closure _ body => sizeL body + 3
 def sizeL : List Item → Nat
   | [] => 1
   | i :: is => i.size + sizeL is
 end
 
 /-- A fuel that always suffices (`Proofs/Carrier.lean: fuel_adequate`). -/
-def fuelFor (p : Plan) (sched : Schedule) : Nat := 2 * (sched.length + 1) * (sizeL p.items + 1) + 2
+def fuelFor (p : Plan) (sched : Schedule) : Nat := sched.length + sizeL p.items + 1
 
 /-! ### the re-batching wrapper (`VariableChunkIterator`, execution.rs:1358-1404 = fuzz target) -/
 
